@@ -4,6 +4,7 @@ import fcntl
 import glob
 import hashlib
 import json
+import re
 import os
 import shutil
 import subprocess
@@ -441,21 +442,32 @@ def load_known():
     return data.get("findings", [])
 
 
+def canon_key(key):
+    """`R07.2|compiler::lift::State::ty_contains_closure|TVec` -> `R07.2|compiler::lift::ty_contains_closure|TVec`"""
+    def path(m):
+        segs = m.group(0).split("::")
+        return "::".join([x for x in segs[:-1] if not x[:1].isupper()] + segs[-1:])
+    return re.sub(r"[A-Za-z_][A-Za-z0-9_]*(?:::[A-Za-z_][A-Za-z0-9_]*)+", path, key)
+
+
 def finish(run, t0, explanation, seed=0, replay_key=None):
     """subtract known findings, print lines, write evidence, return exit code"""
     # a finding is identified by its obligation key; clauses shared between properties (e.g. R07.2 evaluated under C03)
     # carry the same key, so the entry applies wherever that clause is evaluated
     known = load_known()
-    known_keys = {k["key"]: k for k in known if k.get("status") == "known"}
+    # a finding names the function it sits in; the *type* whose impl block holds that function is not part of its identity (moving a
+    # method to another impl block - neutral patch N26-h - leaves the finding what it was): keys are compared with the CamelCase
+    # segments inside a `::` path dropped, on both sides
+    known_keys = {canon_key(k["key"]): k for k in known if k.get("status") == "known"}
     viol = [o for o in run.obs if not o.ok]
-    unlisted = [o for o in viol if o.key not in known_keys]
-    listed = [o for o in viol if o.key in known_keys]
+    unlisted = [o for o in viol if canon_key(o.key) not in known_keys]
+    listed = [o for o in viol if canon_key(o.key) in known_keys]
     seen = set()
     for o in listed:
         if o.key in seen:
             continue
         seen.add(o.key)
-        print(f"KNOWN-FINDING: property={run.prop} {o.key} :: {known_keys[o.key].get('what_fails', o.detail)}")
+        print(f"KNOWN-FINDING: property={run.prop} {o.key} :: {known_keys[canon_key(o.key)].get('what_fails', o.detail)}")
     os.makedirs(os.path.join(EVIDENCE_DIR, "replay"), exist_ok=True)
     # remove stale replay files of this property
     for p in glob.glob(os.path.join(EVIDENCE_DIR, "replay", f"{run.prop}-*.json")):
